@@ -520,6 +520,7 @@ inductive Conv where
   | subsettedDeep (depth : Nat) (subset : List Cand)
   | rounded (decimals : Nat)
   | roundedWith (mode : RoundMode) (decimals : Nat)
+  | invalid (e : Err)      -- a constructor call the class refuses (RoundedVotes(decimals < 0): ValueError, convert.py L866-868)
   | chain (cs : List Conv)
 
 def affOf (aff : List (Cand × Nat)) (c : Cand) : Option Nat :=
@@ -570,6 +571,11 @@ def applyConv : Conv → Val → Except Err Val
   | .roundedWith m k, .simple d => .ok (.simple (roundedVotesWith m k d))
   | .roundedWith m k, .approval d => .ok (.approval (roundedVotesWith m k d))
   | .roundedWith m k, .ranked d => .ok (.ranked (roundedVotesWith m k d))
+  | .rounded k, .items d => .ok (.items (roundedVotes k d))
+  | .rounded k, .pairs d => .ok (.pairs (roundedVotes k d))
+  | .roundedWith m k, .items d => .ok (.items (roundedVotesWith m k d))
+  | .roundedWith m k, .pairs d => .ok (.pairs (roundedVotesWith m k d))
+  | .invalid e, _ => .error e
   | .chain cs, v => applyChain cs v
   | _, _ => typeMismatch
 /-- `Chain(converters).convert(votes)` (convert.py L973-977) -/
